@@ -271,6 +271,25 @@ func (bn *baseNode) Lock() {
 	bn.mu.Lock()
 }
 
+// owner returns the user and group ids of the node.
+func (bn *baseNode) owner() (uid, gid int) {
+	return bn.uid, bn.gid
+}
+
+// canSetOwner reports whether the user u may change the owner of the node to uid and gid (-1 : unchanged).
+// Only the administrator changes the owner; the owner of a node can give it to its own group.
+func (bn *baseNode) canSetOwner(uid, gid int, u avfs.UserReader) bool {
+	if u.IsAdmin() {
+		return true
+	}
+
+	if bn.uid != u.Uid() || (uid != -1 && uid != bn.uid) {
+		return false
+	}
+
+	return gid == -1 || gid == bn.gid || gid == u.Gid()
+}
+
 // setModTime sets the modification time of the node.
 func (bn *baseNode) setModTime(mtime time.Time, u avfs.UserReader) bool {
 	if bn.uid != u.Uid() && !u.IsAdmin() {
